@@ -31,6 +31,7 @@ func Families(quick bool) []*prog.Case {
 	cases = append(cases, famSeq(quick)...)
 	cases = append(cases, famImplicit(quick, types)...)
 	cases = append(cases, famSeqW(quick)...)
+	cases = append(cases, famByValueX(quick)...)
 	return cases
 }
 
